@@ -41,3 +41,36 @@ class RefStream:
         assert t >= 0
         self.pos = min(t, len(self.data))
         return self.pos
+
+
+import io
+
+
+class ShortReader(io.RawIOBase):
+    """a legal raw stream that returns at most k bytes per read()"""
+
+    def __init__(self, data, k):
+        self.b = io.BytesIO(data)
+        self.k = k
+
+    def readable(self):
+        return True
+
+    def seekable(self):
+        return True
+
+    def read(self, n=-1):
+        if n is None or n < 0:
+            return self.b.read()
+        return self.b.read(min(n, self.k))
+
+    def readinto(self, buf):
+        d = self.b.read(min(len(buf), self.k))
+        buf[:len(d)] = d
+        return len(d)
+
+    def seek(self, off, whence=0):
+        return self.b.seek(off, whence)
+
+    def tell(self):
+        return self.b.tell()
